@@ -22,6 +22,7 @@ fn models(tier: Tier) -> Vec<Model> {
             v.extend(gen::m3(0).into_iter().step_by(211));
             v.extend(gen::m4(0).into_iter().step_by(97));
             v.extend(gen::m5(0).into_iter().step_by(53));
+            v.extend(gen::m8(0).into_iter().step_by(7));
         }
         Tier::Thorough => {
             v.extend(gen::m1(1).into_iter().step_by(53));
@@ -29,6 +30,7 @@ fn models(tier: Tier) -> Vec<Model> {
             v.extend(gen::m3(1).into_iter().step_by(101));
             v.extend(gen::m4(1).into_iter().step_by(43));
             v.extend(gen::m5(1).into_iter().step_by(17));
+            v.extend(gen::m8(1).into_iter().step_by(3));
         }
     }
     // conflict-rich models with bystanders: unconstrained variables never appear in a conflict, so
